@@ -372,6 +372,7 @@ def oracle(c, d, steps):
             t += 1
         evinfo.append((typ, t, xs))
     W = Fr(0)
+    work_amb = False
     seen = set()
     ti_acc = {}     # stage -> (sum, count)
     nst = d["nstages"]
@@ -406,11 +407,13 @@ def oracle(c, d, steps):
                     cp = spec_centers(c, d, t - 1, first, wrap=False)
                     Es, Fs, _ = spec_terms(c, d, kimp, cu, xs)
                     inc = [shortest(a - b, fr(v["P"])) if v["per"] else a - b for a, b, v in zip(cu, cp, c["vars"])]
+                    if any(v["per"] and abs(dc) == fr(v["P"]) / 2 for dc, v in zip(inc, c["vars"])):
+                        work_amb = True      # the centre moves by exactly half a period in one step: two closest images (DESIGN 3.2)
                     W += sum(f * dc for f, dc in zip(Fs, inc))
                 else:
                     _, _, dk = spec_terms(c, d, kimp, cimp, xs)
                     W += dk * (spec_k(c, d, t, first) - spec_k(c, d, t - 1, first))
-            if not close(float(W), o["W"]):
+            if not work_amb and not close(float(W), o["W"]):
                 bad.append(("work:%s" % ("centers" if m == "cc" else "k"), "step %d: accumulated work %r, sum of force x increment over the steps so far %r" % (t, o["W"], float(W))))
         # ---- staged TI: one line per stage, written by the new step that ends it, = mean of dU/dlambda over the
         #      stage's sampled steps (steps s in (first+gN, first+(g+1)N] with equil = 0 or (s-first) mod N >= equil)
@@ -658,7 +661,10 @@ def cut_ambiguous(c, isteps, msteps):
             if v["per"] and i < len(o["C"]):
                 P = fr(v["P"])
                 sd = shortest(fr(xs[i]) - fr(o["C"][i]), P)
-                if abs(sd) != P / 2 and abs(float(abs(sd) - P / 2)) < 1e-9:    # exact (dyadic) ties are deterministic and stay compared
+                mc = msteps[idx]["C"][i] if idx < len(msteps) and i < len(msteps[idx]["C"]) else o["C"][i]
+                near = abs(float(abs(sd) - P / 2)) < 1e-9
+                # exact (dyadic) ties with bitwise equal centres in model and implementation are deterministic and stay compared
+                if near and (abs(sd) != P / 2 or mc != o["C"][i]):
                     c2 = dict(c, events=c["events"][:idx])
                     return c2, isteps[:idx], msteps[:idx], True
     return c, isteps, msteps, False
@@ -1159,7 +1165,7 @@ def manifold_part(run, r, runner, n):
         for d_, o in zip(recs, cs["steps"]):
             bad = None
             me = float.fromhex(d_["E"])
-            eq = lambda a, b: close(a, b, 1e-9) or abs(a - b) < 1e-11
+            eq = lambda a, b: a == b or close(a, b, 1e-9) or abs(a - b) < 1e-11     # a == b: equal infinities (force at the antipode of a unit-vector centre)
             if int(d_["it"]) != o["it"]:
                 bad = "step %s vs %d" % (d_["it"], o["it"])
             elif not eq(me, o["E"]):
